@@ -21,6 +21,8 @@ import (
 	"strings"
 	"time"
 
+	"github.com/caddyserver/caddy/v2/caddyconfig/caddyfile"
+
 	"verif/harness/internal/core"
 )
 
@@ -51,6 +53,15 @@ func (p *prop) Run(line string) core.Outcome {
 		}()
 	}
 	f := strings.Split(line, " ")
+	switch f[0] {
+	case "adapt", "madapt", "perm", "eqv", "leak", "site":
+		// cases that run the adapter can die of a fatal (unrecoverable) Go error
+		if noteCase(line) {
+			return core.Outcome{Impl: "crash", Tags: []string{"adapt:crash"}, Failures: []core.Failure{{Case: line, Class: "adapter-crash",
+				What: "the process died of a fatal, unrecoverable error while this case was running: " + clip(lastCrash, 1200)}}}
+		}
+		defer caseDone()
+	}
 	switch f[0] {
 	case "order":
 		if len(f) == 1 {
@@ -160,13 +171,36 @@ func firstDiff(a, b []byte) string {
 }
 
 func runAdapt(line, text string, mutated bool) core.Outcome {
-	o := core.Outcome{Impl: "oracle-only"}
+	o := core.Outcome{}
+	// first stage: the lexer (modelled; lean/CaddyModel/C17/Lexer.lean)
+	lexErr := false
+	func() {
+		defer func() {
+			if p := recover(); p != nil {
+				o.Impl = "lex:panic"
+				o.Failures = append(o.Failures, core.Failure{Case: line, Class: "lexer-panic", What: fmt.Sprint(p)})
+			}
+		}()
+		toks, err := caddyfile.Tokenize([]byte(text), "Caddyfile")
+		if err != nil {
+			o.Impl, lexErr = "lex:err", true
+		} else {
+			o.Impl = fmt.Sprintf("lex:ok:%d", len(toks))
+		}
+	}()
 	r := checkTotalDet(line, text, &o)
 	if r.timedOut || r.panicked {
 		return o
 	}
+	if lexErr && r.err == nil {
+		o.Failures = append(o.Failures, core.Failure{Case: line, Class: "lexer-error-but-adapter-accepts",
+			What: fmt.Sprintf("Tokenize rejects the text but Adapt accepts it; input %q", clip(text, 400))})
+	}
 	if r.err != nil {
 		o.Tags = append(o.Tags, "adapt:rejected", errTag(r.err))
+		if len(strings.TrimSpace(text)) == 0 {
+			o.Tags = append(o.Tags, "trivial")
+		}
 		return o
 	}
 	o.Tags = append(o.Tags, "adapt:accepted")
@@ -212,6 +246,6 @@ func checkValid(line, text string, js []byte, lenient bool, o *core.Outcome) {
 		}
 		o.Tags = append(o.Tags, "valid:FAIL-"+kind)
 		o.Failures = append(o.Failures, core.Failure{Case: line, Class: "invalid-output:" + cls,
-			What: fmt.Sprintf("accepted Caddyfile whose JSON fails %s: %s; input %q", v.stage, clip(v.msg, 300), clip(text, 400))})
+			What: fmt.Sprintf("accepted Caddyfile whose JSON fails %s: %s; input %q", v.stage, clip(v.msg, 700), clip(text, 400))})
 	}
 }
